@@ -17,7 +17,8 @@ if wt in demo:
 (d / "demo.py").write_text(demo)
 notes = Path(wt, "NOTES.md")
 (d / "NOTES.md").write_text(notes.read_text() if notes.exists() else "")
-meta = {"property": prop, "origin": "sub-agent given only the property text and a scratch worktree (wave 3: told which kinds of change were already known)",
+import os
+meta = {"property": prop, "origin": os.environ.get("SEEDED_ORIGIN", "sub-agent given only the property text and a scratch worktree"),
         "summary": summary, "needs": needs, "suite": "84 stable tests still pass"}
 if also:
     meta["also_run"] = also
